@@ -35,6 +35,7 @@ func H_cookie_pair() {
 	verifAssert(w.cookieIndex <= 9, "ring index stays in range")
 	j := verifChoose("foreign-halves", verifParam("J")+1)
 	var fc [10]uint32
+	var fname [10]string
 	nf := 0
 	for i := 0; i < j; i++ {
 		// halves of other moves interleaved by other threads: move-outs (whose move-in may
@@ -42,7 +43,7 @@ func H_cookie_pair() {
 		if nf > 0 && verifParam("NONEST") == 0 && verifBool("foreign-is-movein") {
 			q := verifChoose("which-foreign", nf)
 			e := w.newEvent("/g/x", unix.IN_MOVED_TO, fc[q])
-			verifAssert(e.Op == Create && e.renamedFrom == verifForeign[q], "a foreign move's Create is paired with its own old name")
+			verifAssert(e.Op == Create && e.renamedFrom == fname[q], "a foreign move's Create is paired with its own old name")
 			verifReach("cookie-pair-nested")
 		} else {
 			ci := verifU32("foreigncookie")
@@ -52,7 +53,13 @@ func H_cookie_pair() {
 				verifAssume(ci != fc[q])
 			}
 			fc[nf] = ci
-			e := w.newEvent(verifForeign[nf], unix.IN_MOVED_FROM, ci)
+			fname[nf] = verifForeign[nf]
+			if verifParam("NONEST") == 0 && verifBool("foreign-same-source") {
+				// the old name was re-created and moved away again before the first move's second half arrived
+				fname[nf] = "/t/old"
+				verifReach("cookie-pair-same-source")
+			}
+			e := w.newEvent(fname[nf], unix.IN_MOVED_FROM, ci)
 			nf++
 			verifAssert(e.Op == Rename, "foreign half is a Rename")
 		}
